@@ -300,8 +300,17 @@ class Session:
         if not self.wait_until(lambda: not self.live_members(gid), 4.0):
             raise Inconclusive("job did not finish")
         time.sleep(0.15)
-        self.s.send("fg%s\r" % ref)
+        if self.rng.random() < 0.5:
+            # ... or while another command is in the foreground, `fg` following on the same line: the foreground wait has
+            # collected the job's processes by then, so there is not even a process group left
+            self.s.send("vp_argv before-fg ; fg%s\r" % ref)
+        else:
+            self.s.send("fg%s\r" % ref)
         self.read_prompt("fg-of-a-finished-job")
+        # the failed hand-over must leave the shell as it was: the next foreground job can be stopped from the keyboard
+        if len(self.live_jobs()) < 3:
+            self.launch(bg=False)
+            self.ctrl_z()
 
     def finish_job(self, gid):
         self.note(("finish", "fg" if gid == self.fg else "bg"))
